@@ -75,9 +75,10 @@ def short(name):
 
 
 class Prov:
-    def __init__(self, body, facts=None):
+    def __init__(self, body, facts=None, cursors=()):
         self.body = body
         self.facts = facts
+        self.cursors = set(cursors)      # locals whose value is mutated through a &mut handed to calls: kept as opaque leaves
         self.defs = defaultdict(list)   # local -> [(lhs Place, kind, payload, block)]
         self.is_closure_like = body.defkind == "Closure"
         for b in body.blocks:
@@ -148,7 +149,7 @@ class Prov:
                 return e
             return ("as", e, p[1])
         if p[0] in ("i", "ci", "s"):
-            if k == "agg" and e[1] == "array":
+            if k == "agg" and (e[1] == "array" or e[1].startswith("repeat:")):
                 return mkphi([x for _, x in e[2]]) if e[2] else ("unknown", "empty-array")
             if p[0] == "i":
                 return ("index", e, self.local(p[1]))
@@ -174,6 +175,8 @@ class Prov:
 
     def _local(self, l):
         body = self.body
+        if l in self.cursors:
+            return ("cursor", l, body.local_name(l) or ("_%d" % l))
         alts = []
         if 1 <= l <= body.arg_count:
             name = body.local_name(l)
@@ -233,7 +236,8 @@ class Prov:
                 names = [str(i) for i in range(len(rv.ops))]
             return ("agg", what, tuple((n, self.operand(o)) for n, o in zip(names, rv.ops)))
         if k == "repeat":
-            return ("agg", "array", (("0", self.operand(rv.ops[0])),))
+            n = rv.j.get("n")
+            return ("agg", "array" if n is None else "repeat:%d" % n, (("0", self.operand(rv.ops[0])),))
         return ("unknown", k)
 
     def call(self, t, blk):
@@ -291,6 +295,8 @@ def fmt(e, depth=0):
         return "discr(%s)" % fmt(e[1], depth + 1)
     if k == "partial":
         return "partial%s=%s" % (list(e[1]), fmt(e[2], depth + 1))
+    if k == "cursor":
+        return "cursor(%s)" % e[2]
     return "<%s>" % ",".join(str(x) for x in e)
 
 
@@ -676,6 +682,8 @@ def fmt_short(e, depth=0):
         return "φ(%s)" % "|".join(sorted(set(fmt_short(x, depth + 1) for x in e[1])))
     if k == "agg":
         return "%s{..}" % short(e[1]).split("::")[-1]
+    if k == "cursor":
+        return "cursor(%s)" % e[2]
     return k
 
 
@@ -854,6 +862,8 @@ def comparison(e):
         m = re.search(r"(?:PartialOrd|PartialEq|Ord)(?:<[^>]*>)?>?::(lt|le|gt|ge|eq|ne)$", short(e[1]))
         if not m:
             m = re.search(r"(?:std|core)::cmp::impls::(lt|le|gt|ge|eq|ne)$", short(e[1]))
+        if not m:
+            m = re.search(r"(?:std|core)::(?:array::equality|slice::cmp)::(eq|ne)$", short(e[1]))
         if not m:
             m = re.search(r"cmp::(?:PartialOrd|PartialEq)(?:<.*>)?>::(lt|le|gt|ge|eq|ne)$", e[1])
         if m:
